@@ -469,7 +469,8 @@ def applyG (ret : Bool) (s : Sys) : Act → Option Sys
     if s.panicked || isTerminal t.state || x.loopPkt.isSome then none else
     if decide (sOrdered ≤ t.state) && t.order.isSome && !(prov && s.bidStored) then none else
     let t6 := { t with state := sCanceled }
-    if x.alive && !x.quit then
+    if x.alive && x.quit then none else      -- the daemon is shutting down: no RPC is served
+    if x.alive then
       match finStep ret prov x sCanceled false with
       | (none, _) => some { s with panicked := true }
       | (some x', es) =>
@@ -484,7 +485,8 @@ def applyG (ret : Bool) (s : Sys) : Act → Option Sys
     if s.panicked || isTerminal t.state || x.loopPkt.isSome then none else
     if !((prov && s.bidStored) || (!prov && s.pending.isSome)) then none else
     let t5 := { t with state := sCompleted }
-    if x.alive && !x.quit then
+    if x.alive && x.quit then none else
+    if x.alive then
       match finStep ret prov x sCompleted false with
       | (none, _) => some { s with panicked := true }
       | (some x', es) => some (applyEffs prov (setParty s prov x') es)
